@@ -54,6 +54,8 @@ type Frame struct {
 	debugRef   map[string][]*ssa.DebugRef
 	mutSet     map[ssa.Value]bool
 	// lock protecting the contents of maps loaded from guarded fields
+	rangeMods []rangeMod
+	pointDone map[int]bool
 	lastGuard *guardTag
 	mapGuards map[ssa.Value]*guardTag
 	curLoopHdr *ssa.BasicBlock
@@ -354,6 +356,27 @@ func (fr *Frame) lookupLocal(name string, h *ssa.BasicBlock) (Val, bool) {
 			}
 			if best == nil || (bestBlk != b && bestBlk.Dominates(b)) || (bestBlk == b && idx > bestIdx) {
 				best, bestBlk, bestIdx = d.X, b, idx
+			}
+		}
+		// a join (phi) of the variable in a dominating block is a definition too
+		for _, pb := range fr.fn.Blocks {
+			if !pb.Dominates(fr.evalBlock) {
+				continue
+			}
+			for _, in := range pb.Instrs {
+				p, ok := in.(*ssa.Phi)
+				if !ok {
+					break
+				}
+				if p.Comment != name {
+					continue
+				}
+				if _, ok := fr.vals[p]; !ok {
+					continue
+				}
+				if best == nil || (bestBlk != pb && bestBlk.Dominates(pb)) {
+					best, bestBlk, bestIdx = p, pb, -1
+				}
 			}
 		}
 		if best != nil {
@@ -1191,6 +1214,7 @@ func (fr *Frame) modComps(m string, pt map[string]types.Type) []modEntry {
 		return out
 	}
 	if strings.HasPrefix(m, "elems(") {
+		m, _, _, _ = splitElemsRange(m)
 		e := strings.TrimSuffix(strings.TrimPrefix(m, "elems("), ")")
 		t := fr.staticType(e, pt)
 		sl, ok := t.Underlying().(*types.Slice)
@@ -1332,4 +1356,9 @@ func ifaceTypeOfKey(E *Engine, key string) *types.Interface {
 	}
 	it, _ := t.Underlying().(*types.Interface)
 	return it
+}
+
+// rangeMod: a modifies entry elems(buf)[lo:hi] of the function under verification
+type rangeMod struct {
+	comp, arr, off, lo, hi, text string
 }
